@@ -77,6 +77,82 @@ impl Sub for Crash {
         // I/O error at the replacement of meta.json (or at a directory sync of the updater); the failed writer then
         // collects garbage; the crash images taken from there on must still expose the last commit (or the one that
         // failed, if its metadata had been replaced already).
+        // In another quarter of the histories: whoever collects garbage from a thread other than the segment updater (the
+        // merge thread at the end of a merge, say) is held right before it takes the meta lock, until a commit that
+        // supersedes a delete file of the previous commit sits between the replacement of meta.json and the directory
+        // sync that makes it durable; then the collector runs.  (On a tree where every collection runs on the updater
+        // thread the first gate is never reached and this is just one more merge and commit.)
+        let mut must_check: Vec<(usize, usize)> = vec![];
+        if c.salt % 4 == 2 {
+            // the segment with the most live documents stays out of the merge and gets a delete file first
+            let mut seg_uids: Vec<(tantivy::index::SegmentId, Vec<u64>)> = vec![];
+            {
+                let (_r, s) = env.searcher()?;
+                for seg in s.segment_readers() {
+                    let col = seg.fast_fields().u64("uid").or_fail("fast_uid_failed")?;
+                    seg_uids.push((seg.segment_id(), seg.doc_ids_alive().filter_map(|d| col.first(d)).collect()));
+                }
+            }
+            seg_uids.sort_by_key(|x| std::cmp::Reverse(x.1.len()));
+            let ids: Vec<tantivy::index::SegmentId> = seg_uids.iter().skip(1).map(|x| x.0).collect();
+            if ids.len() >= 2 && seg_uids[0].1.len() >= 3 {
+                let youngest: Vec<u64> = seg_uids[0].1.iter().take(2).cloned().collect();
+                {
+                    let uid_field = env.f.uid;
+                    env.writer.as_ref().unwrap().delete_term(tantivy::Term::from_field_u64(uid_field, youngest[0]));
+                    env.pending.remove(&youngest[0]);
+                    env.last_opstamp = None;
+                    env.apply(&Op::Commit, cx)?;
+                    // (a log point: "Running garbage collection" is logged before the collector takes any lock)
+                    let g_gc = crate::loggate::arm("merge_thread", "Running garbage collection", std::time::Duration::from_millis(400));
+                    let fut = env.writer.as_mut().unwrap().merge(&ids);
+                    let _ = fut.wait();
+                    if crate::loggate::wait_reached(g_gc, std::time::Duration::from_millis(25)) {
+                        cx.label("collector_outside_updater_held_before_meta_lock");
+                        let g_a = sd.add_gate(crate::simdir::GateSpec { thread: "segment_updater".into(), kind: Some(K::AtomicWrite), path_suffix: "meta.json".into(), nth: 0, max_hold: std::time::Duration::from_millis(300) });
+                        env.writer.as_ref().unwrap().delete_term(tantivy::Term::from_field_u64(uid_field, youngest[1]));
+                        env.pending.remove(&youngest[1]);
+                        env.last_opstamp = None;
+                        let payload = format!("c{}", env.commits + 1);
+                        let span_start = sd.log_len();
+                        let commit_future = {
+                            let w = env.writer.as_mut().unwrap();
+                            let mut pc = w.prepare_commit().or_fail("prepare_commit_failed")?;
+                            pc.set_payload(&payload);
+                            pc.commit_future()
+                        };
+                        if sd.wait_reached(g_a, std::time::Duration::from_millis(250)) {
+                            let g_s = sd.add_gate(crate::simdir::GateSpec { thread: "segment_updater".into(), kind: Some(K::SyncDir), path_suffix: String::new(), nth: 0, max_hold: std::time::Duration::from_millis(300) });
+                            sd.release(g_a);
+                            sd.wait_reached(g_s, std::time::Duration::from_millis(250));
+                            crate::loggate::release(g_gc);
+                            // let the collector finish
+                            std::thread::sleep(std::time::Duration::from_millis(60));
+                            sd.disarm(g_s);
+                        } else {
+                            sd.disarm(g_a);
+                            crate::loggate::release(g_gc);
+                        }
+                        let o = commit_future.wait().or_fail("commit_failed")?;
+                        if std::env::var("TVV_C01_DEBUG").is_ok() {
+                            for (n, op) in sd.clone_log().iter().enumerate().skip(span_start) {
+                                eprintln!("C01DBG {n:5} {:22} {:?} {}", op.thread, op.kind, op.path.display());
+                            }
+                        }
+                        env.commits += 1;
+                        env.stats.commits += 1;
+                        env.last_commit_opstamp = o;
+                        env.committed = env.pending.clone();
+                        env.models.push(env.committed.clone());
+                        env.commit_spans.push((env.commits, span_start, sd.log_len()));
+                        must_check.push((span_start, sd.log_len()));
+                        env.dirty = false;
+                    } else {
+                        crate::loggate::disarm(g_gc);
+                    }
+                }
+            }
+        }
         let mut failed_commit: Option<(u64, usize)> = None;
         let mut models_extra: Option<Model> = None;
         if c.salt % 4 == 1 && c.cfg.policy == Policy::NoMerge {
@@ -149,6 +225,10 @@ impl Sub for Crash {
                 let off = (c.salt as usize) % step;
                 boundaries.extend(all_int.iter().skip(off).step_by(step).cloned());
                 boundaries.extend((created_at..=n).filter(|b| !interesting(*b)).skip((c.salt as usize >> 8) % 7).step_by(7).take(40));
+                // every boundary of a deliberately constructed schedule
+                for (a, b) in &must_check {
+                    boundaries.extend((*a..=*b).filter(|x| *x <= n));
+                }
                 boundaries.sort();
                 boundaries.dedup();
             }
